@@ -43,12 +43,17 @@ def graphs(tier):
     if tier == "quick":
         return [("one_TRUE", ["int", "str", "trk"]), ("one_FALSE", ["int", "str", "trk"]), ("two_TRUE", ["trk"]), ("two_FALSE", ["trk"])]
     return [("one4_TRUE", ["int", "str", "trk"]), ("one4_FALSE", ["int", "str", "trk"]), ("one5_TRUE", ["trk"]), ("one5_FALSE", ["trk"]),
-            ("two_TRUE", ["int", "str", "trk"]), ("two_FALSE", ["int", "str", "trk"]), ("two3_TRUE", ["trk"])]
+            ("two_TRUE", ["int", "str", "trk"]), ("two_FALSE", ["int", "str", "trk"])]
+
+
+def mc_only(tier):
+    """Configurations that are model-checked but too large to dump and replay edge by edge (1.7 M states)."""
+    return ["two3_TRUE"] if tier == "thorough" else []
 
 
 def model_checks(tier):
     res = []
-    for name, _ in graphs(tier):
+    for name in [n for n, _ in graphs(tier)] + mc_only(tier):
         res.append(common.model_check(SPEC, "MC_RingBuffer.tla", "MC_RingBuffer_%s.cfg" % name, "RingBufferImpl=>BDeque " + name, heap="16g"))
     return res
 
